@@ -155,6 +155,9 @@ func wireCheck(c *chk.Ctx, family string, expandKinds bool, random func(*chk.Ctx
 		c.Violation(rp, "the emitted server for the family's schema could not be generated/built: "+firstN(err.Error(), 300))
 		c.Done()
 	}
+	if family == "C09" {
+		publishedHeaders(c, set, suite)
+	}
 	judgeWire(c, family, suite, out)
 	if family == "C02" || family == "C09" {
 		tsWire(c, set, family, suite)
@@ -261,8 +264,12 @@ func tsWire(c *chk.Ctx, set *plug.Set, family string, suite *wire.Suite) {
 		mods["gen/"+filepath.Base(filepath.Dir(f.Name))] = p
 	}
 	svcs := map[string][]string{}
+	seenSvc := map[string]bool{}
 	for _, sh := range ts.Shapes {
-		svcs[ts.PkgOf(sh)] = append(svcs[ts.PkgOf(sh)], sh.Svc)
+		if k := ts.PkgOf(sh) + "|" + sh.Svc; !seenSvc[k] {
+			seenSvc[k] = true
+			svcs[ts.PkgOf(sh)] = append(svcs[ts.PkgOf(sh)], sh.Svc)
+		}
 	}
 	var ops []map[string]any
 	for _, cs := range ts.Cases {
@@ -378,4 +385,67 @@ func tsWire(c *chk.Ctx, set *plug.Set, family string, suite *wire.Suite) {
 			Note: bad.Note, Observed: eventsOf(out, bad.ID), Rejected: v.RejectedLine[bad.ID], Seed: c.Seed})
 		c.Violation(rp, fmt.Sprintf("TS server: %s %s [%s] rejected by Trace_Wire at: %s", bad.A.Rpc.Verb, bad.C.URL, bad.Note, firstN(v.RejectedLine[bad.ID], 400)))
 	}
+}
+
+// publishedHeaders reads, from the documents the real OpenAPI plugin emits for the suite's schema, the
+// header parameters of every operation; the trace then carries them ("Published") and Trace_Wire
+// requires them to say at least what the servers enforce.
+func publishedHeaders(c *chk.Ctx, set *plug.Set, suite *wire.Suite) {
+	r := set.Run("openapiv3", suite.Built.Request("format=json", nil), plug.RunOpts{})
+	if !r.OK() {
+		rp := c.WriteReplay(map[string]any{"property": c.ID, "stage": "openapiv3", "exit": r.Exit, "error": r.Error})
+		c.Violation(rp, "the OpenAPI plugin refuses the header family's schema: "+firstN(r.Error, 300))
+		return
+	}
+	docs := map[string]map[string]any{}
+	for _, f := range r.Files {
+		if !strings.HasSuffix(f.Name, ".openapi.json") {
+			continue
+		}
+		var d map[string]any
+		if err := json.Unmarshal([]byte(f.Content), &d); err != nil {
+			c.Broken("OpenAPI JSON of %s does not parse: %v", f.Name, err)
+		}
+		docs[strings.TrimSuffix(filepath.Base(f.Name), ".openapi.json")] = d
+	}
+	n, ops := 0, 0
+	for _, sh := range suite.Shapes {
+		pub := &wire.Published{Params: []wire.PubParam{}}
+		sh.Published = pub
+		paths, _ := docs[sh.Svc]["paths"].(map[string]any)
+		item, _ := paths[sh.Path()].(map[string]any)
+		op, _ := item[strings.ToLower(sh.Rpc.Verb)].(map[string]any)
+		if op == nil {
+			continue
+		}
+		pub.Found = true
+		ops++
+		ps, _ := op["parameters"].([]any)
+		for _, x := range ps {
+			pm, _ := x.(map[string]any)
+			if pm == nil || pm["in"] != "header" {
+				continue
+			}
+			pp := wire.PubParam{Name: fmt.Sprint(pm["name"])}
+			pp.Lname = strings.ToLower(pp.Name)
+			pp.Required, _ = pm["required"].(bool)
+			if sc, _ := pm["schema"].(map[string]any); sc != nil {
+				switch t := sc["type"].(type) {
+				case string:
+					pp.Type = t
+				case []any:
+					if len(t) == 1 {
+						pp.Type = fmt.Sprint(t[0])
+					} else {
+						pp.Type = fmt.Sprint(t)
+					}
+				}
+				pp.Format, _ = sc["format"].(string)
+			}
+			pub.Params = append(pub.Params, pp)
+			n++
+		}
+	}
+	c.Infof("OpenAPI: %d header parameters published over %d operations of %d documents", n, ops, len(docs))
+	c.Set("openapi_header_parameters_read", n)
 }
